@@ -206,12 +206,20 @@ impl Preprocessor {
         desc: IncludeDesc,
     ) -> Result<(), CompileErr> {
         let name_string = decode_string(&desc.name);
-        // Terminate early checking anything with a processed include type.
-        if KNOWN_DIALECTS.contains_key(&name_string) || desc.kind.is_some() {
+        if KNOWN_DIALECTS.contains_key(&name_string) {
             return Ok(());
         }
 
         let (full_name, content) = self.opts.read_new_file(self.opts.filename(), name_string)?;
+        // An embedded file is a dependency too, but it is data: list it and
+        // don't look inside.
+        if desc.kind.is_some() {
+            includes.push(IncludeDesc {
+                name: full_name.as_bytes().to_vec(),
+                ..desc
+            });
+            return Ok(());
+        }
         if self.include_stack.contains(&full_name) {
             return Err(CompileErr(
                 desc.nl.clone(),
